@@ -242,6 +242,16 @@ Definition grouping_ok (es : list entity) (cs : list component) : bool :=
   | None => false
   end.
 
+(* lib/j5schema checkClientPropertyNames (fix 96a1ec3 in /repo): an object whose client properties - its own
+   plus those of the objects it FLATTENS - use one JSON name twice is a reflection error, so the client API
+   cannot be derived. The expansion flattens Keys into State {metadata, keys, data, status} and into
+   Event {metadata, keys, event}; the JSON name of a key is its declared name: the derivation fails exactly
+   when a key is named like one of those properties. (The compiled descriptors are unaffected: C17's
+   clauses hold of them, C17_unreserved_names; unique property names are C18's clause.) *)
+Definition client_props_ok (e : entity) : bool :=
+  forallb (fun k => negb (existsb (bytes_eqb (uf_name (k_def k)))
+                                  [bs "metadata"; bs "data"; bs "status"; bs "event"])) (e_keys e).
+
 (* errc: 0 when the real compiler accepted, else the class of its error (Entity.err_class) *)
 Inductive c17case :=
 | EC (es : list entity) (ok : bool) (errc : N) (lines : list line) (client_ok : bool) (clines : list line).
@@ -253,7 +263,7 @@ Definition c17_check (c : c17case) : bool :=
   | EC es ok errc lines cok clines =>
       match compile_file es with
       | Ok cs => ok && list_eqb line_eqb (flatten (file_pkg_of es) cs ++ notes es) lines
-                 && Bool.eqb cok (client_accepts cs)
+                 && Bool.eqb cok (client_accepts cs && forallb client_props_ok es)
                  && (negb cok || (list_eqb line_eqb (flat_map (fun e => client_lines (client_view e)) es) clines
                                   && grouping_ok es cs))
       | Err s => negb ok && (err_class s =? errc)
